@@ -59,7 +59,7 @@ static PoolList *mk_list(unsigned *fi_out, _Bool need_focus) {
   __CPROVER_assume(count <= cap && count <= MAXPOOLS);
   l->count_ = (__typeof__(l->count_))count;
   l->capacity_ = (__typeof__(l->capacity_))cap;
-  l->freeList_ = (__typeof__(l->freeList_))NULL_SLOT;
+  l->freeList_ = (__typeof__(l->freeList_))CFG_NULL_SLOT;
   unsigned fi = in_u32();
   if (need_focus) {
     __CPROVER_assume(fi < count);
